@@ -25,7 +25,8 @@ R6 (added) the consumed tag group is what is recorded: in every Step method that
    by the pop that feeds provenance or the step's own processing (the `input_token_ids` of a `_persist_token`, the arguments
    of calls to Step methods and of `Job(...)`) is computed from the raw batch (flow-sensitive reaching definitions): the
    batch holds the *last received* token of every port, which belongs to the completed group only when all ports deliver
-   tags in the same order.  A pop whose result is discarded (DeployStep.run) binds no group: recorded as an observation.
+   tags in the same order.  Table exception: DeployStep.run discards the popped group and records the batch (its ports
+   carry one default-tagged connector token each, so batch == group); it is reported as an observation.
 R7 (added) recorded inputs are persisted before they are recorded: `get_entity_ids` silently drops entities without id, so
    for every step field read by the `get_entity_ids(...)` collection of a `_persist_token` site, every store of a freshly
    constructed Token (sub)class instance into that field must be followed by an awaited `<that token>.save(...)` on every
@@ -608,6 +609,13 @@ def _processing_args(p, f, node, classes):
     return out
 
 
+# exceptions of R6: qualname -> reason (applies only when the sole stale use is the recorded ids of a discarded group)
+R6_EXCEPTIONS = {
+    f"{STEPM}.DeployStep.run": "the ports of a DeployStep carry one connector token each, all with the default tag: batch == group; "
+                               "latent: would mislink with several differently ordered tags",
+}
+
+
 def r6(ctx):
     p = ctx.prog
     classes = _step_classes(p)
@@ -621,8 +629,8 @@ def r6(ctx):
             continue
         g = f.cfg
         batch = {_def_key(b.id, d) for d in reaching_defs(f, b.id, gc)}
-        # completed groups: `<g> = <map>.pop(<tag>)`
-        pops, bare = [], []
+        # completed groups: `<g> = <map>.pop(<tag>)` (tgt None: the popped group is not bound to a local)
+        pops = []
         for n in f.body_nodes():
             if isinstance(n, ast.Call) and isinstance(n.func, ast.Attribute) and n.func.attr == "pop" and is_name(n.func.value, m.id):
                 st = parent(n)
@@ -635,15 +643,11 @@ def r6(ctx):
                     tgt = st.target.id
                 elif isinstance(st, ast.NamedExpr):
                     tgt = st.target.id
-                (pops if tgt else bare).append((n, st, tgt))
-        for n, st, _ in bare:
-            if isinstance(st, ast.Expr):
-                ctx.observe(f"C07.R6: {f.qualname}: `{unparse(st)}` discards the completed tag group; provenance recorded in that "
-                            "region comes from the last received batch (equal to the group only when all ports deliver tags in the same order)")
-            else:
-                ctx.ob("R6", f"{where}: the completed tag group is bound to a local", False, func=f, node=n,
-                       instance=f"group-bind:{where}", message=f"cannot interpret the use of `{unparse(n)}` in `{unparse(st)[:100]}`")
-        for n, st, tgt in pops:
+                pops.append((n, st, tgt))
+        ctx.ob("R6", f"{where}: a completed tag group is taken out of the grouping map", bool(pops), func=f, node=gc,
+               instance=f"group-pop:{where}", trivial=bool(pops),
+               message=f"`{unparse(gc)}` groups the batch by tag but no `{m.id}.pop(<tag>)` selects a completed group")
+        for k, (n, st, tgt) in enumerate(pops):
             pid = g.node_containing(n)
             ctx.require(bool(pid), f"C07.R6: {f.qualname}: `{unparse(st)[:80]}` not found in the CFG")
             stale = []
@@ -652,13 +656,20 @@ def r6(ctx):
                     continue
                 for c, args in _processing_args(p, f, node, classes):
                     for a in args:
-                        for nm, d in _slice(f, a, c):
-                            if _def_key(nm, d) in batch:
-                                stale.append((c, a, nm))
-                                break
+                        hit = next((nm for nm, d in _slice(f, a, c) if _def_key(nm, d) in batch), None)
+                        if hit is not None:
+                            stale.append((c, a, hit))
+            inst = f"group:{where}" + (f":{k}" if k else "")
+            exc = R6_EXCEPTIONS.get(f.qualname)
+            if tgt is None and exc is not None and stale and all(resolves_to(p, f, c, PERSIST) for c, _, _ in stale):
+                ctx.observe(f"C07.R6: {f.qualname}: `{unparse(st)[:60]}` discards the completed tag group and `{unparse(stale[0][1])[:60]}` "
+                            f"records the last received batch; table exception ({exc})")
+                ctx.ob("R6", f"{where}: table exception ({exc})", True, func=f, node=st, instance=inst, trivial=True)
+                continue
+            grp = f"`{tgt} = {m.id}.pop(..)`" if tgt else f"`{m.id}.pop(..)`"
             what = f"`{unparse(stale[0][0])[:90]}` is computed from `{stale[0][2]}` as received by the last read" if stale else ""
-            ctx.ob("R6", f"{where}: after `{tgt} = {m.id}.pop(..)` only the completed tag group is processed and recorded", not stale,
-                   func=f, node=stale[0][0] if stale else st, instance=f"group:{where}",
+            ctx.ob("R6", f"{where}: after {grp} only the completed tag group is processed and recorded", not stale,
+                   func=f, node=stale[0][0] if stale else st, instance=inst,
                    message=f"{what}, not from the completed tag group `{unparse(st)[:60]}`: the recorded inputs are the tokens of the "
                            "last batch (other tags) whenever ports deliver tags in different orders",
                    witness=[f"line {c.lineno}: {unparse(a)[:80]}" for c, a, _ in stale[:6]])
@@ -725,6 +736,7 @@ def r7(ctx):
     classes = _step_classes(p)
     fields = _recorded_fields(p, classes)
     ctx.require(any(a == "size_map" for _, a in fields), f"C07.R7: GatherStep.size_map is no longer recorded as an input ({sorted(fields)})")
+    total = 0
     for (cq, field), consumers in sorted(fields.items()):
         family = [c for c in classes if p.is_subclass(c, cq) or p.is_subclass(cq, c)]
         # methods whose call leads to the recording site (the consumer itself and its direct callers in the family)
@@ -739,6 +751,7 @@ def r7(ctx):
                     if not ctors:
                         continue
                     fresh += 1
+                    total += 1
                     g = F.cfg
                     where = F.qualname.split(".", 2)[-1]
                     aliases = {x for x in (tgt, val.id if is_name(val) else None) if x}
@@ -762,6 +775,7 @@ def r7(ctx):
                            witness=g.describe(bad) if bad else [])
         ctx.ob("R7", f"{cq.rpartition('.')[2]}.{field}: stores of fresh tokens enumerated ({fresh})", True, func=consumers[0], node=consumers[0].node,
                instance=f"fresh-enum:{cq}:{field}", trivial=True)
+    ctx.require(total >= 1, "C07.R7: no store of a freshly constructed token into a recorded step field found (GatherStep.run forced gather)")
 
 
 # --------------------------------------------------------------------------- R8
@@ -782,16 +796,39 @@ class _Subst(ast.NodeTransformer):
 
 
 def _render(e, env, generalise=False) -> str:
-    import copy
+    # re-parse instead of deep-copying: program nodes carry parent links
+    return unparse(_Subst(env, generalise).visit(ast.parse(unparse(e), mode="eval").body))
 
-    return unparse(_Subst(env, generalise).visit(copy.deepcopy(e)))
+
+def _binders_in_scope(node):
+    """`binders(node)` plus the earlier generators of a comprehension when `node` sits in a later generator
+    (`[i for n in names for i in schema[n]['input_ids']]`: `n` is bound where `schema[n]` is evaluated)."""
+    out = []
+    child = node
+    a = parent(node)
+    while a is not None and not isinstance(a, (ast.FunctionDef, ast.AsyncFunctionDef, ast.Lambda)):
+        if isinstance(a, (ast.For, ast.AsyncFor)):
+            if any(child is s_ for s_ in a.body):
+                out.append((a.target, a.iter))
+        elif isinstance(a, (ast.ListComp, ast.SetComp, ast.GeneratorExp, ast.DictComp)):
+            gens = list(a.generators)
+            if any(child is gen for gen in gens):
+                gens = gens[: [child is gen for gen in gens].index(True)]
+            for gen in reversed(gens):
+                out.append((gen.target, gen.iter))
+        elif isinstance(a, ast.comprehension):
+            # inside the iterable / conditions of a generator: the generator itself binds only for its `ifs`
+            pass
+        child = a
+        a = parent(a)
+    return out
 
 
 def _describe(e, generalise=False) -> str:
     """Canonical text of `e` with the loop / comprehension variables in scope replaced by what they range over
     (`for k, t in X.items()` and `for t in X.values()` give the same text for `t`)."""
     env: dict[str, str] = {}
-    for tgt, it in reversed(binders(e)):  # outermost first: inner binders see (and shadow) outer ones
+    for tgt, it in reversed(_binders_in_scope(e)):  # outermost first: inner binders see (and shadow) outer ones
         if is_name(tgt):
             env[tgt.id] = f"<each {_render(it, env)}>"
         elif isinstance(tgt, (ast.Tuple, ast.List)):
@@ -868,7 +905,7 @@ def r8(ctx):
 
 
 RULES = [("R1", r1), ("R2", r2), ("R3", r3), ("R4", r4), ("R5", r5), ("R6", r6), ("R7", r7), ("R8", r8)]
-FLOORS = {"R1": 40, "R2": 8, "R3": 11, "R4": 2, "R5": 20, "R6": 5, "R7": 2, "R8": 6}
+FLOORS = {"R1": 40, "R2": 8, "R3": 11, "R4": 2, "R5": 20, "R6": 12, "R7": 4, "R8": 6}
 
 _GATHER_PUT = "output_port.put(await self._persist_token(token=ListToken(tag=key, value=sorted(self.token_map[key], key=cmp_to_key(lambda x, y: compare_tags(x.tag, y.tag)))), port=output_port, input_token_ids=get_entity_ids([self.size_map[key], *self.token_map[key]])))"
 
